@@ -224,6 +224,44 @@ def readable_now(sock):
     return bool(p.poll(0))
 
 
+class GateHandler(logging.Handler):
+    """a log sink for the server's `logger=` parameter that, when armed, holds the thread emitting the pool's "Created
+    connection" DEBUG record (the accept thread, in the middle of admitting a client) until released - a slow log sink"""
+    def __init__(self):
+        logging.Handler.__init__(self, logging.DEBUG)
+        self.armed = False
+        self.blocked = threading.Event()
+        self.gate = threading.Event()
+
+    def arm(self):
+        self.blocked.clear()
+        self.gate.clear()
+        self.armed = True
+
+    def open_gate(self):
+        self.armed = False
+        self.gate.set()
+
+    def emit(self, record):
+        try:
+            msg = record.getMessage()
+        except Exception:  # noqa
+            return
+        if self.armed and msg.startswith("Created connection"):
+            self.armed = False
+            self.blocked.set()
+            self.gate.wait(10)
+
+
+def gated_logger(handler):
+    _serial[0] += 1
+    lg = logging.getLogger("rpycverif.gated.%d" % _serial[0])
+    lg.propagate = False
+    lg.setLevel(logging.DEBUG)
+    lg.addHandler(handler)
+    return lg
+
+
 class FaultyListener(object):
     """the server's listener socket, whose accept() fails once on demand (`arm(errno)`): an event of the environment the
     harness cannot produce otherwise without really running the process out of descriptors"""
@@ -392,6 +430,10 @@ class InProcBackend(object):
         kw = dict(auto_register=False, logger=quiet_logger())
         if "bc" in opts:
             kw["protocol_config"] = {"before_closed": before_closed_hook}
+        self.log_handler = None
+        if "loggate" in opts:
+            self.log_handler = GateHandler()
+            kw["logger"] = gated_logger(self.log_handler)
         if auth:
             kw["authenticator"] = authenticator
         if kind == "pool":
@@ -491,6 +533,8 @@ class InProcBackend(object):
         return "-" if done[0] == "ok" else done[0]
 
     def teardown(self):
+        if self.log_handler is not None:
+            self.log_handler.open_gate()
         if hasattr(self, "real_spawn"):
             from rpyc.utils import server as S
             S.spawn = self.real_spawn
